@@ -5,6 +5,9 @@
   gc_mar_guarded  : bool   GC_Mark_And_Recurse: registered pointers go through GC_Mark_Item only,
                            unregistered ones are traced (true) / GC_Mark_Item then GC_Recurse on
                            everything (false = defect D17)
+  gc_finaliser_alloc_widens : bool   GC_Set widens the window minptr/maxptr for every registered address, also for one
+                           registered by a finaliser while a sweep runs (true) / only after the early return
+                           `if (gc->freelist isnt NULL) return;` (false = seeded defect C01-r2-2)
   gc_leaf_types   : list string   types GC_Recurse returns on at once
   gc_mark_shape_ok : bool  the functions the model transcribes (GC_Mark_Item, GC_Recurse, GC_Mark's
                            three passes, GC_Mark_Stack, the Mark instances of Array List Table Tree
@@ -122,10 +125,22 @@ def generate(repo, emit, src, func_body):
     remb = norm(func_body(gc, r'static\s+void\s+GC_Rem\s*\(\s*var\s+self\s*,\s*var\s+key\s*\)\s*\{'))
     # repaired form (fix b4ae34a): no collection is started while a sweep is running (destructor that allocates)
     want_set2 = want_set.replace(norm('if (gc->nitems > gc->mitems)'), norm('if (gc->freelist isnt NULL) { return; } if (gc->nitems > gc->mitems)'))
-    if setb in (want_set, want_set2) and rule in sweepb and rule in remb:
+    # variant the model can follow faithfully (switch fin_widens = false): the window is widened only AFTER the early
+    # return, i.e. not for an object a finaliser allocates while a sweep is running
+    widen = norm('gc->maxptr = (uintptr_t)key > gc->maxptr ? (uintptr_t)key : gc->maxptr;'
+                 'gc->minptr = (uintptr_t)key < gc->minptr ? (uintptr_t)key : gc->minptr;')
+    guard = norm('if (gc->freelist isnt NULL) { return; }')
+    want_set3 = want_set2.replace(widen, '', 1).replace(guard, guard + widen, 1)
+    if setb in (want_set, want_set2, want_set3) and rule in sweepb and rule in remb:
         emit('gc_threshold_shape_ok', 'Definition gc_threshold_shape_ok : bool := true.   (* GC_Set trigger nitems > mitems; mitems = n + n/2 + 1 *)')
     else:
         emit('gc_threshold_shape_ok', None)
+    if setb in (want_set, want_set2):
+        emit('gc_finaliser_alloc_widens', 'Definition gc_finaliser_alloc_widens : bool := true.   (* GC_Set widens minptr/maxptr before `if (gc->freelist isnt NULL) return;` *)')
+    elif setb == want_set3:
+        emit('gc_finaliser_alloc_widens', 'Definition gc_finaliser_alloc_widens : bool := false.   (* GC_Set widens minptr/maxptr only after `if (gc->freelist isnt NULL) return;` *)')
+    else:
+        emit('gc_finaliser_alloc_widens', None)
     if bad:
         emit('gc_mark_shape_ok (changed: %s)' % ', '.join(bad), None)
     else:
